@@ -144,6 +144,13 @@ def gen_scene(rng, mode=None, inject=None):
         ids = [k for k, (_t, chna_ok) in COMMON_PACKS.items() if chna_ok or mode != "chna"]
         for cid in rng.sample(ids, rng.choice([1, 2])):
             sc["formats"].append({"common": cid})
+    # matrix formats on top of the others: a direct matrix (input pack -> output pack) or an encode/decode pair
+    base = len(sc["formats"])
+    if mode != "chna" and rng.random() < 0.3:
+        for _ in range(rng.choice([1, 1, 2])):
+            sc["formats"].append({"matrix": {"kind": rng.choice(["direct", "encdec"]),
+                                             "input": rng.randrange(base), "output": rng.randrange(base),
+                                             "nenc": rng.choice([1, 2, 3]), "seed": rng.getrandbits(30)}})
     sc["inject"] = inject
 
     objs = []
@@ -248,6 +255,12 @@ def gen_scene(rng, mode=None, inject=None):
     # an AVS may be referenced from one place only per programme, and a content-level reference counts for every
     # programme containing the content: contents used by a single programme only (ensured above)
 
+    if inject == "alloc-stress":
+        # allocations that need the full search: the same format twice in one object (interchangeable tracks ->
+        # "Ambiguous" unless mono), silent tracks in matrix usages; the result may be items or an error
+        for o in objs:
+            if o["uses"] and rng.random() < 0.7:
+                o["uses"] = o["uses"] + [rng.choice(o["uses"])]
     if inject == "multi-selected" and sc["groups"]:
         g = sc["groups"][0]
         sc["selected"] = [g[0], g[1]]
@@ -378,9 +391,56 @@ def build(scene):
     if scene["common"]:
         for tf in adm.audioTrackFormats:
             b.track_format_for.setdefault(id(tf.audioStreamFormat.audioChannelFormat), tf)
+    from ear.fileio.adm.elements import AudioBlockFormatMatrix, MatrixCoefficient
     roots = []
-    for f in scene["formats"]:
-        roots.append(adm[f["common"]] if "common" in f else mk_pack(f["root"]))
+    b.matrix_info = {}
+
+    def flat_channels(p):
+        return [c for _path, c in real_slots(p)]
+
+    def mk_matrix_channel(name, inputs, out, mrng):
+        coeffs = [MatrixCoefficient(inputChannelFormat=mrng.choice(inputs),
+                                    gain=mrng.choice([None, 0.5, 1.0, -0.25, 2.0]),
+                                    delay=mrng.choice([None, None, 0.0, 2.5]))
+                  for _ in range(mrng.choice([0, 1, 1, 2, 3]))]
+        ch = AudioChannelFormat(audioChannelFormatName=name, type=TypeDefinition.Matrix, audioBlockFormats=[
+            AudioBlockFormatMatrix(matrix=coeffs, gain=mrng.choice([1.0, 1.0, 0.5, 3.5]), outputChannelFormat=out)])
+        adm.addAudioChannelFormat(ch)
+        sf = AudioStreamFormat(audioStreamFormatName=name, format=FormatDefinition.PCM, audioChannelFormat=ch)
+        adm.addAudioStreamFormat(sf)
+        tf = AudioTrackFormat(audioTrackFormatName=name, audioStreamFormat=sf, format=FormatDefinition.PCM)
+        adm.addAudioTrackFormat(tf)
+        b.track_format_for[id(ch)] = tf
+        return ch
+
+    for fi, f in enumerate(scene["formats"]):
+        if "matrix" in f:
+            m = f["matrix"]
+            mrng = random.Random(m["seed"])
+            ipk, opk = roots[m["input"]], roots[m["output"]]
+            name = "f%d" % fi
+            if m["kind"] == "direct":
+                chans = [mk_matrix_channel("%s_m%d" % (name, k), flat_channels(ipk), oc, mrng)
+                         for k, oc in enumerate(flat_channels(opk))]
+                pk = AudioPackFormat(audioPackFormatName=name, type=TypeDefinition.Matrix, audioChannelFormats=chans,
+                                     inputPackFormat=ipk, outputPackFormat=opk,
+                                     importance=mrng.choice([None, 4]))
+                adm.addAudioPackFormat(pk)
+                b.matrix_info[id(pk)] = ("direct", None)
+            else:
+                ech = [mk_matrix_channel("%s_e%d" % (name, k), flat_channels(ipk), None, mrng) for k in range(m["nenc"])]
+                epk = AudioPackFormat(audioPackFormatName=name + "_enc", type=TypeDefinition.Matrix,
+                                      audioChannelFormats=ech, inputPackFormat=ipk)
+                adm.addAudioPackFormat(epk)
+                chans = [mk_matrix_channel("%s_m%d" % (name, k), ech, oc, mrng)
+                         for k, oc in enumerate(flat_channels(opk))]
+                pk = AudioPackFormat(audioPackFormatName=name, type=TypeDefinition.Matrix, audioChannelFormats=chans,
+                                     outputPackFormat=opk, encodePackFormats=[epk])
+                adm.addAudioPackFormat(pk)
+                b.matrix_info[id(pk)] = ("encdec", epk)
+            roots.append(pk)
+        else:
+            roots.append(adm[f["common"]] if "common" in f else mk_pack(f["root"]))
     if scene.get("inject") == "absdist-conflict":
         for r in roots:
             if r.audioPackFormats and not r.is_common_definition:
@@ -393,9 +453,30 @@ def build(scene):
     v2 = scene["version"] in (2, None)
     n_uid = [0]
 
+    b.matrix_usages = []
+
     def mk_tracks(fi, allow_silent, depth_free):
         out = []
-        for path, ch in slots[fi]:
+        use_slots = slots[fi]
+        if id(roots[fi]) in b.matrix_info:
+            # usages of a matrix pack: which channels the tracks carry, and the pack they reference
+            kind, epk = b.matrix_info[id(roots[fi])]
+            pk = roots[fi]
+            if kind == "direct":
+                usage = trng.choice(["direct", "pre_applied"])
+                chans, ref = (flat_channels(pk.inputPackFormat), pk) if usage == "direct" else (list(pk.audioChannelFormats), pk)
+            else:
+                usage = trng.choice(["decode", "pre_decoded", "encode_decode"])
+                if usage == "decode":
+                    chans, ref = list(epk.audioChannelFormats), pk
+                elif usage == "pre_decoded":
+                    chans, ref = list(pk.audioChannelFormats), pk
+                else:
+                    chans, ref = flat_channels(epk.inputPackFormat), epk
+            b.matrix_usages.append(usage)
+            use_slots = [([ref], c) for c in chans]
+            allow_silent, depth_free = scene.get("inject") == "alloc-stress", False
+        for path, ch in use_slots:
             if allow_silent and trng.random() < 0.2:
                 out.append(None)
                 continue
@@ -536,11 +617,19 @@ def item_records(items):
     from ear.core.metadata_input import (ObjectRenderingItem, DirectSpeakersRenderingItem, HOARenderingItem,
                                          DirectTrackSpec, SilentTrackSpec)
 
+    from ear.core.metadata_input import MatrixCoefficientTrackSpec, MixTrackSpec, GainTrackSpec
+
     def ts(t):
         if isinstance(t, DirectTrackSpec):
-            return t.track_index
+            return "D%d" % t.track_index
         if isinstance(t, SilentTrackSpec):
-            return "s"
+            return "S"
+        if isinstance(t, MatrixCoefficientTrackSpec):
+            return "M(%s|%s|%s)" % (ts(t.input_track), rs(t.coefficient.gain), rs(t.coefficient.delay))
+        if isinstance(t, MixTrackSpec):
+            return "X[%s]" % "+".join(ts(x) for x in t.input_tracks)
+        if isinstance(t, GainTrackSpec):
+            return "G(%s|%s)" % (ts(t.input_track), rs(t.gain))
         return "other:" + type(t).__name__
 
     recs = []
@@ -664,7 +753,8 @@ def serialise(b):
         if id(p) in keep:
             continue
         keep[id(p)] = p
-        todo += list(p.audioPackFormats) + parents.get(id(p), [])
+        todo += list(p.audioPackFormats) + parents.get(id(p), []) + list(p.encodePackFormats)
+        todo += [q for q in (p.inputPackFormat, p.outputPackFormat) if q is not None]
     packs = [p for p in adm.audioPackFormats if id(p) in keep]
     for i, p in enumerate(packs):
         maps["pk"][id(p)] = i
@@ -675,6 +765,12 @@ def serialise(b):
     chan_keep = {id(c) for p in packs for c in p.audioChannelFormats}
     chan_keep |= {id(s.audioChannelFormat) for s in sfs}
     chan_keep |= {id(u.audioChannelFormat) for u in adm.audioTrackUIDs if u.audioChannelFormat is not None}
+    for c in adm.audioChannelFormats:
+        if id(c) in chan_keep and c.type.value == 2:
+            for bf in c.audioBlockFormats:
+                if bf.outputChannelFormat is not None:
+                    chan_keep.add(id(bf.outputChannelFormat))
+                chan_keep |= {id(m.inputChannelFormat) for m in bf.matrix}
     chans = [c for c in adm.audioChannelFormats if id(c) in chan_keep]
     for i, c in enumerate(chans):
         maps["ch"][id(c)] = i
@@ -711,10 +807,11 @@ def serialise(b):
             rs(o.start), rs(o.duration), rs(o.gain), int(o.mute), _o(str, _offset_label(o.positionOffset)),
             _o(str, o.importance), avs))
     for p in packs:
-        segs.append("K %d %s %s %s %s %s %s %s" % (
+        segs.append("K %d %s %s %s %s %s %s %s %s %s %s" % (
             p.type.value, L("ch", p.audioChannelFormats), L("pk", p.audioPackFormats), _o(str, p.importance),
             rs(p.absoluteDistance), _o(lambda s: str(NORMS.index(s)), p.normalization), rs(p.nfcRefDist),
-            _o(lambda x: str(int(x)), p.screenRef)))
+            _o(lambda x: str(int(x)), p.screenRef), _o(lambda q: str(maps["pk"][id(q)]), p.inputPackFormat),
+            _o(lambda q: str(maps["pk"][id(q)]), p.outputPackFormat), L("pk", p.encodePackFormats)))
     for c in chans:
         if c.type.value == 4 and len(c.audioBlockFormats) == 1:
             h = c.audioBlockFormats[0]
@@ -723,8 +820,15 @@ def serialise(b):
                                                  _o(lambda x: str(int(x)), h.screenRef))
         else:
             hs = "0 0 - - 1/1 10 - - -"
-        segs.append("H %d %s %s %s %s" % (c.type.value, rs(c.frequency.lowPass), rs(c.frequency.highPass),
-                                          L("blk", c.audioBlockFormats), hs))
+        if c.type.value == 2 and len(c.audioBlockFormats) == 1:
+            m = c.audioBlockFormats[0]
+            ms = "%s %s %s" % (_o(lambda q: str(maps["ch"][id(q)]), m.outputChannelFormat), rs(m.gain),
+                               _ol(lambda k: "%d:%s:%s" % (maps["ch"][id(k.inputChannelFormat)], rs(k.gain), rs(k.delay)),
+                                   ",", m.matrix))
+        else:
+            ms = "- 1/1 _"
+        segs.append("H %d %s %s %s %s %s" % (c.type.value, rs(c.frequency.lowPass), rs(c.frequency.highPass),
+                                             L("blk", c.audioBlockFormats), hs, ms))
     for s in sfs:
         segs.append("S %d" % maps["ch"][id(s.audioChannelFormat)])
     for t in tfs:
@@ -806,9 +910,28 @@ def oracle(b, blk_label):
         """items of one pack used by one object path (or by the CHNA)"""
         leaf = opath[-1] if opath else None
         per_ch = []
-        for ppath, ch in pack_channels(pack):
-            mine = [u for u in tracks if chan_of(u) is ch and any(u.audioPackFormat is q for q in ppath)]
-            per_ch.append((ppath, ch, mine))
+        if pack.type.name == "Matrix":
+            # a matrix pack renders the channels of its outputPackFormat; each is fed by the matrix channel that
+            # names it as outputChannelFormat: the track carrying that matrix channel if there is one (matrix
+            # already applied), else gain * sum of coefficient * (signal of the coefficient's input channel)
+            mtracks = [u for u in tracks if u.audioPackFormat is pack or
+                       any(u.audioPackFormat is e for e in pack.encodePackFormats)]
+
+            def signal(ch):
+                mine = [u for u in mtracks if chan_of(u) is ch]
+                if mine:
+                    return "D%d" % (mine[0].trackIndex - 1)
+                [blk] = ch.audioBlockFormats
+                return "G(X[%s]|%s)" % ("+".join("M(%s|%s|%s)" % (signal(k.inputChannelFormat), rs(k.gain), rs(k.delay))
+                                                 for k in blk.matrix), rs(blk.gain))
+            where = {id(c): pp for pp, c in pack_channels(pack.outputPackFormat)}
+            for mc in pack.audioChannelFormats:
+                [blk] = mc.audioBlockFormats
+                per_ch.append((where[id(blk.outputChannelFormat)], blk.outputChannelFormat, signal(mc)))
+        else:
+            for ppath, ch in pack_channels(pack):
+                mine = [u for u in tracks if chan_of(u) is ch and any(u.audioPackFormat is q for q in ppath)]
+                per_ch.append((ppath, ch, mine))
         # object-level data: the object holding the audio, overridden by its alternativeValueSet referenced from
         # the item's programme or content
         start = dur = None
@@ -832,7 +955,8 @@ def oracle(b, blk_label):
 
     def items_for(prog, cont, opath, pack, tracks):
         per_ch, common, tail, obj_imp = emit(prog, cont, opath, pack, tracks)
-        kind = {"Objects": 3, "DirectSpeakers": 1, "HOA": 4}[pack.type.name]
+        kind = {"Objects": 3, "DirectSpeakers": 1, "HOA": 4}[
+            (pack.outputPackFormat if pack.type.name == "Matrix" else pack).type.name]
         # a mono pack used by several CHNA tracks is used once per track
         if not opath and len(per_ch) == 1:
             reps = [[(per_ch[0][0], per_ch[0][1], [u])] for u in per_ch[0][2]]
@@ -841,7 +965,7 @@ def oracle(b, blk_label):
         for rep in reps:
             chs = []
             for ppath, ch, mine in rep:
-                t = (mine[0].trackIndex - 1) if mine else "s"
+                t = mine if isinstance(mine, str) else ("D%d" % (mine[0].trackIndex - 1)) if mine else "S"
                 imp = (obj_imp, lowest(p.importance for p in ppath))
                 if kind == 4:
                     [blk] = ch.audioBlockFormats
